@@ -377,6 +377,8 @@ def hook(name):
     def h(I, args, kwargs):
         g = I.ctx.ghost
         g["EV"].append((name, args[1:]))
+        if g.get("on_suspend"):
+            g["on_suspend"](I, "hook:" + name)  # an awaited application hook may suspend
         if name == "on_message":
             m = args[1]
             v = _msg_get(I, m, "34")
@@ -396,10 +398,15 @@ def writer_calls(I):
         g["W"].append(fr if fr is not None else a[0])
         conn = g["conn"]
         conn.f["_journaler"].f["ops"].append(("write", fr))
+        if g.get("on_write"):
+            g["on_write"](I_, fr)
 
     def drain(I_, a, k):
         g["drains"] += 1
         g["conn"].f["_journaler"].f["ops"].append(("drain",))
+        if g.get("on_suspend"):
+            # a suspension point of the coroutine (rely / guarantee mode, C14)
+            g["on_suspend"](I_, "drain")
         mode = g.get("drain_mode")
         if mode == "fault":
             # transport fault: the peer has reset the socket, drain() raises (A-IO dropped for this task)
